@@ -87,6 +87,11 @@ type Inc struct {
 	Comp  int    `json:"comp"`
 	Props []Prop `json:"props,omitempty"`
 	Place *Place `json:"place,omitempty"` // nil: the tag stands directly in the file body
+	// Fill: slot templates written inside the include tag. They declare slot variables (which may
+	// be named like props of this very include, front-matter keys or includer variables) for the
+	// component's <slot> elements, which bind NO props: the variables belong to the supplied
+	// content only and must not disturb what the component reads after its <slot>.
+	Fill []Fill `json:"fill,omitempty"`
 }
 
 // Place puts the include tag somewhere else than directly in the file body.
@@ -260,6 +265,35 @@ func (p *Place) wrap(tag, blk string, incs []Inc, j int, short bool) string {
 	return o + tag + c
 }
 
+// Fill is one <template v-slot…>F</template> child of an include tag. Named: for the component's
+// <slot name="s1"> (spelled #s1 when Hash), else for its default slot. Destructure: the value is
+// "{ A, B }" (Vars), else the single name Vars[0]; no Vars = no value. The content is constant
+// text: in which scope supplied content reads names is a matter of the slot property.
+type Fill struct {
+	Named       bool     `json:"named,omitempty"`
+	Hash        bool     `json:"hash,omitempty"`
+	Destructure bool     `json:"destructure,omitempty"`
+	Vars        []string `json:"vars,omitempty"`
+}
+
+func (f Fill) text() string {
+	attr := "v-slot"
+	switch {
+	case f.Named && f.Hash:
+		attr = "#s1"
+	case f.Named:
+		attr = "v-slot:s1"
+	}
+	switch {
+	case len(f.Vars) == 0:
+	case f.Destructure:
+		attr += `="{ ` + strings.Join(f.Vars, ", ") + ` }"`
+	default:
+		attr += `="` + f.Vars[0] + `"`
+	}
+	return "<template " + attr + ">F</template>\n"
+}
+
 // Req is one :required / :require attribute on the component's root <template>; CSV is its raw value.
 type Req struct {
 	Key string `json:"key"`
@@ -274,6 +308,9 @@ type Comp struct {
 	// NullAs: how a null front-matter value (vals kind "nil") is spelled: "" = `key: null`,
 	// "empty" = `key:`, "tilde" = `key: ~`.
 	NullAs string `json:"null_as,omitempty"`
+	// Slot: the component has <slot> elements that bind no props, after its first block and
+	// followed by a second block (id C<i>.s): "default" (<slot>), "named" (<slot name="s1">), "both".
+	Slot string `json:"slot,omitempty"`
 	// File-level spelling: EOL "crlf" = the whole file has CRLF line endings; Fence = blanks after
 	// the front-matter fences: "" none, "open", "close", "both" (two spaces).
 	EOL   string `json:"eol,omitempty"`
@@ -345,7 +382,21 @@ func compPath(cp Comp) string { return "components/" + cp.Name + ".vuego" }
 
 // richBlock: the first block of a component file reads every name in three ways - {{ }}, a bound
 // attribute and v-if - since those go through different lookups of the scope.
-func richBlock(id string) bool { return strings.HasPrefix(id, "C") && strings.HasSuffix(id, ".in") }
+func richBlock(id string) bool {
+	return strings.HasPrefix(id, "C") && (strings.HasSuffix(id, ".in") || strings.HasSuffix(id, ".s"))
+}
+
+func slotText(kind string) string {
+	switch kind {
+	case "default":
+		return "<slot>-</slot>\n"
+	case "named":
+		return `<slot name="s1">-</slot>` + "\n"
+	case "both":
+		return `<slot name="s1">-</slot>` + "\n<slot>-</slot>\n"
+	}
+	return ""
+}
 
 func readText(expr string) (typ, val string) {
 	if base, isLen := strings.CutSuffix(expr, "|len"); isLen {
@@ -403,17 +454,28 @@ func incTag(c Case, inc Inc, short bool) string {
 	if d != "" {
 		d = " " + d
 	}
+	kids := ""
+	for _, f := range inc.Fill {
+		kids += f.text()
+	}
+	if kids != "" {
+		kids = "\n" + kids
+	}
 	if short {
 		tag := kebab(cp.Name)
-		return fmt.Sprintf("<%s%s%s></%s>\n", tag, d, a, tag)
+		return fmt.Sprintf("<%s%s%s>%s</%s>\n", tag, d, a, kids, tag)
 	}
-	return fmt.Sprintf(`<template%s include="%s"%s></template>`+"\n", d, compPath(cp), a)
+	return fmt.Sprintf(`<template%s include="%s"%s>%s</template>`+"\n", d, compPath(cp), a, kids)
 }
 
-func body(c Case, id string, incs []Inc, short bool) string {
+func body(c Case, id string, incs []Inc, short bool, slot string) string {
 	names := c.printed()
 	var b strings.Builder
 	b.WriteString(block(id+".in", names, c.Reads...))
+	if st := slotText(slot); st != "" {
+		b.WriteString(st)
+		b.WriteString(block(id+".s", names, c.Reads...))
+	}
 	for j, inc := range incs {
 		if inc.Place == nil {
 			b.WriteString(incTag(c, inc, short))
@@ -462,7 +524,7 @@ func jsonOf(v any) string {
 // files derives the file set. short selects the shorthand spelling.
 func files(c Case, short bool) map[string]string {
 	out := map[string]string{}
-	out["page.vuego"] = "<div>\n" + body(c, "P", c.Page, short) + "</div>\n"
+	out["page.vuego"] = "<div>\n" + body(c, "P", c.Page, short, "") + "</div>\n"
 	for _, k := range usedWrappers(c) {
 		out["components/"+wrappers[k].name+".vuego"] = wrappers[k].text
 	}
@@ -495,7 +557,7 @@ func files(c Case, short bool) map[string]string {
 			}
 			b.WriteString(fence("close"))
 		}
-		inner := body(c, fmt.Sprintf("C%d", i), cp.Incs, short && c.NestedShort)
+		inner := body(c, fmt.Sprintf("C%d", i), cp.Incs, short && c.NestedShort, cp.Slot)
 		if cp.Wrap || len(cp.Req) > 0 {
 			b.WriteString("<template")
 			for _, r := range cp.Req {
@@ -686,7 +748,8 @@ type stats struct {
 	wrap, nowrap, leakWatch, passThru int
 	omitted                           int
 	jsonDocStatic                     int
-	jsonTpl                           map[int]int // json props by number of mustaches
+	fills                             map[string]int // slot templates on include tags (slot variable name collisions)
+	jsonTpl                           map[int]int    // json props by number of mustaches
 	readsAsserted, unbalanced         int
 	crlf, fenceBlanks                 int
 	jsonDocKept                       map[string]int // interpolated / bound strings that are JSON documents (stay strings)
@@ -697,7 +760,7 @@ type stats struct {
 }
 
 func newStats() stats {
-	return stats{modes: map[string]int{}, boundKinds: map[string]int{}, bracketText: map[string]int{}, places: map[string]int{}, jsonDocKept: map[string]int{}, jsonTpl: map[int]int{}}
+	return stats{modes: map[string]int{}, boundKinds: map[string]int{}, bracketText: map[string]int{}, places: map[string]int{}, jsonDocKept: map[string]int{}, jsonTpl: map[int]int{}, fills: map[string]int{}}
 }
 
 type result struct {
@@ -1138,8 +1201,8 @@ func model(c Case) result {
 		}
 	}
 	seenInc := map[int][]string{}
-	var walk func(id string, incs []Inc, sc scope, depth int)
-	walk = func(id string, incs []Inc, sc scope, depth int) {
+	var walk func(id string, incs []Inc, sc scope, depth int, slot string)
+	walk = func(id string, incs []Inc, sc scope, depth int, slot string) {
 		if depth > r.st.maxDepth {
 			r.st.maxDepth = depth
 		}
@@ -1151,6 +1214,11 @@ func model(c Case) result {
 			return
 		}
 		emit(id+".in", sc)
+		if slotText(slot) != "" {
+			// the component's <slot> binds nothing; whatever the includer's slot template
+			// declares belongs to the supplied content: the component reads on as before
+			emit(id+".s", sc)
+		}
 		prevBig := false
 		for j, inc := range incs {
 			if inc.Comp < 0 || inc.Comp >= len(c.Comps) {
@@ -1222,6 +1290,32 @@ func model(c Case) result {
 				}
 				props := evalProps(inc.Props, e, &r)
 				seenInc[inc.Comp] = append(seenInc[inc.Comp], jsonOf(inc.Props))
+				for _, f := range inc.Fill {
+					used := (f.Named && (cp.Slot == "named" || cp.Slot == "both")) || (!f.Named && (cp.Slot == "default" || cp.Slot == "both"))
+					if !used {
+						continue
+					}
+					r.st.fills["used"]++
+					for _, fv := range f.Vars {
+						_, inP := props[fv]
+						_, inF := cp.FM[fv]
+						_, inS := e[fv]
+						if inP {
+							r.st.fills["var-named-like-prop"]++
+						}
+						if inF {
+							r.st.fills["var-named-like-frontmatter"]++
+						}
+						if inS {
+							r.st.fills["var-named-like-includer-variable"]++
+						}
+						if f.Destructure {
+							r.st.fills["destructured"]++
+						} else {
+							r.st.fills["named-variable"]++
+						}
+					}
+				}
 				child := e.with()
 				for k, v := range props {
 					child[k] = v
@@ -1295,14 +1389,14 @@ func model(c Case) result {
 						}
 					}
 				}
-				walk(fmt.Sprintf("C%d", inc.Comp), cp.Incs, child, depth+1)
+				walk(fmt.Sprintf("C%d", inc.Comp), cp.Incs, child, depth+1, cp.Slot)
 			}
 			if !nextJoined(incs, j) {
 				emit(fmt.Sprintf("%s.a%d", id, j), sc)
 			}
 		}
 	}
-	walk("P", c.Page, root, 0)
+	walk("P", c.Page, root, 0, "")
 	for _, l := range seenInc {
 		for i := 1; i < len(l); i++ {
 			if l[i] != l[0] {
@@ -1532,6 +1626,9 @@ func classify(c Case) (bool, []string) {
 	}
 	for k, n := range s.jsonTpl {
 		add(n > 0, fmt.Sprintf("json-literal-prop-with-%d-mustaches", k))
+	}
+	for k, n := range s.fills {
+		add(n > 0, "slot-fill:"+k)
 	}
 	add(s.readsAsserted > 0, "path/len-read-asserted")
 	add(s.unbalanced > 0, "json-literal-with-mustaches-and-closing-}}")
@@ -1814,6 +1911,39 @@ func genPlace(t *rapid.T, names []string, label string, rate int, multiOnly bool
 	return p
 }
 
+// genFill draws the slot templates written inside an include tag; their slot variables are names
+// of the case, so that they collide with props, front-matter keys and includer variables.
+func genFill(t *rapid.T, names []string, label string, pl *Place, rate int) []Fill {
+	if pl != nil && pl.Kind != "loop" && pl.Kind != "chain" {
+		return nil
+	}
+	if rapid.IntRange(0, 9).Draw(t, label+".fill") >= rate {
+		return nil
+	}
+	var out []Fill
+	for k, nf := 0, rapid.IntRange(1, 2).Draw(t, label+".fills"); k < nf; k++ {
+		l := fmt.Sprintf("%s.fill%d", label, k)
+		f := Fill{Named: rapid.Bool().Draw(t, l+".named"), Destructure: rapid.Bool().Draw(t, l+".destr")}
+		if k == 1 {
+			f.Named = !out[0].Named // one template per slot
+		}
+		if f.Named {
+			f.Hash = rapid.Bool().Draw(t, l+".hash")
+		}
+		nv := 1
+		if f.Destructure {
+			nv = rapid.IntRange(1, 2).Draw(t, l+".nvars")
+		}
+		for v := 0; v < nv; v++ {
+			if nm := rapid.SampledFrom(names).Draw(t, fmt.Sprintf("%s.var%d", l, v)); !contains(f.Vars, nm) {
+				f.Vars = append(f.Vars, nm)
+			}
+		}
+		out = append(out, f)
+	}
+	return out
+}
+
 // nameStatus of a (component, name) over all instances of the component.
 type nameStatus struct{ provided, scopeOnly, missing int }
 
@@ -2020,6 +2150,7 @@ func genCase(rec *ev.Rec, known *kf.File) func(t *rapid.T) Case {
 				}
 			}
 			cp.NullAs = rapid.SampledFrom([]string{"", "empty", "tilde"}).Draw(t, fmt.Sprintf("c%d.nullas", i))
+			cp.Slot = rapid.SampledFrom([]string{"", "", "", "default", "named", "both"}).Draw(t, fmt.Sprintf("c%d.slot", i))
 			cp.EOL = rapid.SampledFrom([]string{"", "", "crlf"}).Draw(t, fmt.Sprintf("c%d.eol", i))
 			cp.Fence = rapid.SampledFrom([]string{"", "", "", "open", "close", "both"}).Draw(t, fmt.Sprintf("c%d.fence", i))
 			if (pool && i == 0) || rapid.IntRange(0, 5).Draw(t, fmt.Sprintf("c%d.big", i)) == 0 {
@@ -2050,7 +2181,12 @@ func genCase(rec *ev.Rec, known *kf.File) func(t *rapid.T) Case {
 					prev = c.Comps[i].Incs[j-1].Place
 				}
 				pl := genPlace(t, c.Names, l, 5, false, prev)
-				c.Comps[i].Incs = append(c.Comps[i].Incs, Inc{Comp: rapid.SampledFrom(cand).Draw(t, l+".comp"), Place: pl, Props: genProps(t, g, c.Names, l, pl)})
+				target := rapid.SampledFrom(cand).Draw(t, l+".comp")
+				rate := 1
+				if c.Comps[target].Slot != "" {
+					rate = 5
+				}
+				c.Comps[i].Incs = append(c.Comps[i].Incs, Inc{Comp: target, Place: pl, Props: genProps(t, g, c.Names, l, pl), Fill: genFill(t, c.Names, l, pl, rate)})
 			}
 		}
 		k := rapid.IntRange(1, 3).Draw(t, "page.fan")
@@ -2068,6 +2204,7 @@ func genCase(rec *ev.Rec, known *kf.File) func(t *rapid.T) Case {
 					inc.Place = genPlace(t, c.Names, l, 20, true, nil)
 				}
 				inc.Props = genProps(t, g, c.Names, l, inc.Place)
+				inc.Fill = genFill(t, c.Names, l, inc.Place, 2)
 				c.Page = append(c.Page, inc)
 				continue
 			}
@@ -2083,7 +2220,11 @@ func genCase(rec *ev.Rec, known *kf.File) func(t *rapid.T) Case {
 			} else if j > 0 && rapid.Bool().Draw(t, l+".again") {
 				comp = c.Page[0].Comp // the same component again, with other props
 			}
-			c.Page = append(c.Page, Inc{Comp: comp, Place: pl, Props: genProps(t, g, c.Names, l, pl)})
+			rate := 1
+			if c.Comps[comp].Slot != "" {
+				rate = 5
+			}
+			c.Page = append(c.Page, Inc{Comp: comp, Place: pl, Props: genProps(t, g, c.Names, l, pl), Fill: genFill(t, c.Names, l, pl, rate)})
 		}
 
 		if known.Open(kfBraces) {
@@ -2761,6 +2902,66 @@ func enumSpell(yield func(Case) bool) int {
 	return n
 }
 
+// enumFill: the include tag carries slot templates whose declared slot variables are named like a
+// prop of the same include (va1), a front-matter key (vb2) and / or an includer variable; the
+// component's <slot> elements bind nothing and the component reads the names again after them.
+func enumFill(yield func(Case) bool) int {
+	fills := [][]Fill{
+		{{Destructure: true, Vars: []string{"va1"}}},
+		{{Vars: []string{"va1"}}},
+		{{Named: true, Destructure: true, Vars: []string{"va1", "vb2"}}},
+		{{Named: true, Hash: true, Vars: []string{"vb2"}}},
+		{{Named: true, Vars: []string{"va1"}}, {Destructure: true, Vars: []string{"vb2", "vc3"}}},
+		{{Named: true, Hash: true, Destructure: true, Vars: []string{"vc3"}}, {Vars: []string{"va1"}}},
+		{{Named: true}, {}},
+	}
+	n := 0
+	for _, slot := range []string{"default", "named", "both"} {
+		for fi, fl := range fills {
+			for _, mode := range []string{"static", "bind", "json", "omit"} {
+				for z := 0; z < 8; z++ {
+					inData, wrap, nested := z&1 != 0, z&2 != 0, z&4 != 0
+					c := Case{Names: []string{"va1", "vb2", "vc3"}, Print: []string{"d1"}, Data: fixedData(), NestedShort: true,
+						Comps: []Comp{{Name: "CardA", Wrap: wrap, Slot: slot, FM: map[string]vals.V{"vb2": vals.Str("fm2")}}, {Name: "BoxB", Slot: []string{"", "default"}[fi%2]}}}
+					if inData {
+						c.Data["va1"] = vals.Str("incl")
+						c.Data["vc3"] = vals.Int(33)
+					}
+					if wrap {
+						c.Comps[0].Req = []Req{{":required", "va1"}}
+					}
+					var props []Prop
+					switch mode {
+					case "static":
+						props = []Prop{{Name: "va1", Mode: "static", Text: "Settings"}}
+					case "bind":
+						props = []Prop{{Name: "va1", Mode: "bind", Path: "d0"}, {Name: "vc3", Mode: "vbind", Path: "dm"}}
+					case "json":
+						props = []Prop{{Name: "va1", Mode: "json", Text: `{"name": "{{ d1 }}"}`}}
+					}
+					if mode == "omit" && wrap && !inData {
+						c.Comps[0].Req = nil
+					}
+					inc := Inc{Comp: 0, Props: props, Fill: fl}
+					if nested {
+						c.Comps[1].Incs = []Inc{inc}
+						c.Comps[0], c.Comps[1] = c.Comps[1], c.Comps[0]
+						c.Comps[0].Incs[0].Comp = 1
+						c.Page = []Inc{{Comp: 0, Props: []Prop{{Name: "vb2", Mode: "static", Text: "outer"}}, Fill: []Fill{{Destructure: true, Vars: []string{"vb2"}}}}}
+					} else {
+						c.Page = []Inc{inc, {Comp: 0, Fill: fl}}
+					}
+					n++
+					if !yield(c) {
+						return n
+					}
+				}
+			}
+		}
+	}
+	return n
+}
+
 // ---------------------------------------------------------------------------------------------
 // Tests
 // ---------------------------------------------------------------------------------------------
@@ -2813,6 +3014,7 @@ func TestProp(t *testing.T) {
 	n8 := enumFMZero(each("enum-fmzero"))
 	n9 := enumJSONTpl(each("enum-jsontpl"))
 	n10 := enumSpell(each("enum-spell"))
+	n11 := enumFill(each("enum-fill"))
 	if shard == 0 {
 		for k := 0; k < skipped; k++ {
 			rec.Excluded(kfFalsy)
@@ -2824,7 +3026,7 @@ func TestProp(t *testing.T) {
 		}
 	}
 	if full && !rec.Failed() {
-		rec.Exhaustive(fmt.Sprintf("flat: %d names x {5 prop modes x front-matter x includer x required} (%d); twice: same component twice, 5^4 prop modes x front-matter x includer (%d); chain: depth-3 chain, one name, 10 states per level x includer x leaf required (%d); types: 33 values (16 of them texts starting with [ or { that are not JSON) x 5 modes x 4 collisions + 7 JSON documents as static props (%d); place: 39 placements (loop, slot content, chain member) x 6 ways of passing va1 x front-matter x includer x required (%d); pool: component with 9..12 bindings followed by loop / slot placements, twice (%d); case: 5 names with upper-case letters x front-matter x includer x 4 :required spellings (%d); fmzero: 10 null / zero-ish front-matter values x 5 prop modes x includer x root template x nesting (%d); jsontpl: 6 JSON literals with 0..2 mustaches x 3 sources x includer x front-matter x nesting (%d); spell: LF/CRLF x fence blanks x prop mode (null spelling rotating) x includer x root template x page CRLF (%d)", run.Pick(2, 3), n1, n2, n3, n4, n5, n6, n7, n8, n9, n10))
+		rec.Exhaustive(fmt.Sprintf("flat: %d names x {5 prop modes x front-matter x includer x required} (%d); twice: same component twice, 5^4 prop modes x front-matter x includer (%d); chain: depth-3 chain, one name, 10 states per level x includer x leaf required (%d); types: 33 values (16 of them texts starting with [ or { that are not JSON) x 5 modes x 4 collisions + 7 JSON documents as static props (%d); place: 39 placements (loop, slot content, chain member) x 6 ways of passing va1 x front-matter x includer x required (%d); pool: component with 9..12 bindings followed by loop / slot placements, twice (%d); case: 5 names with upper-case letters x front-matter x includer x 4 :required spellings (%d); fmzero: 10 null / zero-ish front-matter values x 5 prop modes x includer x root template x nesting (%d); jsontpl: 6 JSON literals with 0..2 mustaches x 3 sources x includer x front-matter x nesting (%d); spell: LF/CRLF x fence blanks x prop mode (null spelling rotating) x includer x root template x page CRLF (%d); fill: 3 slot kinds (binding nothing) x 7 sets of slot templates declaring colliding variables x 4 prop modes x includer x root template x nesting (%d)", run.Pick(2, 3), n1, n2, n3, n4, n5, n6, n7, n8, n9, n10, n11))
 	}
 
 	run.Rapid(t, rec, "random", genCase(rec, known), classify, check)
